@@ -50,6 +50,9 @@ Proof.
   intros cap l r H E. destruct l as [|x t]; cbn [stack_pop] in E; [discriminate|]. injection E as <-. cbn [snd length] in *. lia.
 Qed.
 
+Lemma set_like_ok : forall o l, stack_ok o -> stack_ok (set_like o l).
+Proof. intros o l H. destruct o; try exact I. exact H. Qed.
+
 Ltac stack_fact :=
   match goal with
   | Hp : pool_ok ?p, Hg : get ?p ?o = OStk ?cap ?l |- _ =>
@@ -67,6 +70,8 @@ Proof.
   all: try (cbn [length]; apply Nat.le_0_l).
   all: try (match goal with H : seq_contents ?x = Some _ |- stack_ok (with_contents ?x _) => destruct x; try discriminate H; exact I end).
   all: try (stack_fact; first [eapply stack_push_ok; eassumption | eapply (stack_pop_ok _ _ _ Hs); eassumption]).
+  all: try (apply set_like_ok; apply get_ok; assumption).
+  all: try (match goal with H : set_operand (OStk _ _) = Some _ |- _ => discriminate H end).
 Qed.
 
 (* EVERY HISTORY *)
